@@ -14,8 +14,11 @@ package main
 //   quota    a lowered maximum applied through ApplyConf/UpdateQueueProperties, then TryQuotaPreemption (synchronous hook)
 
 import (
+	"encoding/json"
 	"fmt"
+	"hash/fnv"
 	"math"
+	"math/rand"
 	"os"
 	"runtime/debug"
 	"sort"
@@ -266,6 +269,19 @@ func (w *pWorld) effects(line jm) {
 	sort.Strings(unmarked)
 	line["marked"] = marked
 	line["unmarked"] = unmarked
+	preAfter, relAfter := []string{}, []string{}
+	for _, a := range w.allocs {
+		if a.IsPreempted() {
+			preAfter = append(preAfter, a.GetAllocationKey())
+		}
+		if a.IsReleased() {
+			relAfter = append(relAfter, a.GetAllocationKey())
+		}
+	}
+	sort.Strings(preAfter)
+	sort.Strings(relAfter)
+	line["preemptedAfter"] = preAfter
+	line["releasedAfter"] = relAfter
 	w.handler.Lock()
 	rel := [][]string{}
 	for _, r := range w.handler.rel {
@@ -461,6 +477,22 @@ func (d *preemptDrv) apply(op jm) {
 		line["pre"] = pre
 		ok := false
 		node := ""
+		// "lateRelease": allocations that are released (placeholder replaced / timed out: SetReleased(true)) AFTER the victims
+		// were collected and BEFORE TryPreemption marks its final victims
+		if late := arr(op["lateRelease"]); late != nil && pre {
+			p.VerifInitQueueSnapshots()
+			done := []string{}
+			for _, k := range late {
+				for _, a := range w.allocs {
+					if a.GetAllocationKey() == jsonStr(k) && a.SetReleased(true) == nil {
+						done = append(done, a.GetAllocationKey())
+					}
+				}
+			}
+			sort.Strings(done)
+			line["lateReleased"] = done
+			c.stat("try-late-release")
+		}
 		if pre {
 			res, ok2 := p.TryPreemption()
 			ok = ok2
@@ -480,6 +512,12 @@ func (d *preemptDrv) apply(op jm) {
 		line["ok"] = ok
 		line["node"] = node
 		line["trig"] = w.ask.HasTriggeredPreemption()
+		askLog := []string{}
+		for _, e := range w.ask.GetAllocationLog() {
+			askLog = append(askLog, e.Message)
+		}
+		sort.Strings(askLog)
+		line["askLog"] = askLog
 		if pl != nil {
 			sort.Slice(pl.checks, func(i, j int) bool { return jsonStr(pl.checks[i]["node"]) < jsonStr(pl.checks[j]["node"]) })
 			line["checks"] = pl.checks
@@ -910,10 +948,137 @@ func genWorld(c *Ctx) jm {
 	return jm{"op": "reset", "queues": queues, "nodes": nodes, "allocs": allocs, "ask": ask}
 }
 
+// dryTry runs a "try" operation on a fresh copy of the world WITHOUT recording it: did the preconditions pass, which
+// allocations were potential victims (in snapshot order) and which were marked (the final victims)
+func (d *preemptDrv) dryTry(op jm) (pre bool, potential, marked []string) {
+	defer func() {
+		if r := recover(); r != nil {
+			if os.Getenv("YKH_TRACE") != "" {
+				fmt.Fprintln(os.Stderr, "dryTry panic:", r)
+			}
+			pre, potential, marked = false, nil, nil
+		}
+	}()
+	op = norm(op)
+	var over jm
+	if o, ok := op["ask"].(map[string]interface{}); ok {
+		over = o
+	}
+	w := buildWorld(d.spec, over)
+	plugins.UnregisterSchedulerPlugins()
+	if t, ok := op["plugin"].(map[string]interface{}); ok {
+		pl := &prePlugin{table: map[string]jm{}, checks: []jm{}}
+		for k, v := range t {
+			pl.table[k] = v.(map[string]interface{})
+		}
+		plugins.RegisterSchedulerPlugin(pl)
+		defer plugins.UnregisterSchedulerPlugins()
+	}
+	snaps := w.askQ.FindEligiblePreemptionVictims(w.askQ.GetQueuePath(), w.ask)
+	paths := []string{}
+	for p := range snaps {
+		paths = append(paths, p)
+	}
+	sort.Strings(paths)
+	for _, p := range paths {
+		potential = append(potential, keysOf(snaps[p].PotentialVictims, true)...)
+	}
+	p := objects.NewPreemptor(w.askApp, resources.NewResource(), w.askQ.GetPreemptionDelay(), w.ask, &sliceIter{w.nodes}, jsonBool(op["nodesTried"]))
+	pre = p.CheckPreconditions()
+	if pre {
+		p.TryPreemption()
+	}
+	for i, a := range w.allocs {
+		if a.IsPreempted() && !jsonBool(w.aspecs[i]["preempted"]) {
+			marked = append(marked, a.GetAllocationKey())
+		}
+	}
+	sort.Strings(marked)
+	return pre, potential, marked
+}
+
+// lateVariants: for a "try" operation that was just run, the same operation with 1..2 allocations released between the
+// victim collection and the marking of the final victims. The keys come from the final victims of the undisturbed run
+// (any position; two variants when there are several), now and then mixed with a potential victim that was not chosen;
+// an attempt that marks nothing gets a variant (30%) that releases potential victims / any allocation.
+// The choices use a generator of their own, seeded from the world and the operation: the stream of worlds and of the
+// other operations is the same with and without these cases.
+func (d *preemptDrv) lateVariants(op jm) {
+	b, err := json.Marshal(jm{"w": d.spec, "op": op})
+	if err != nil {
+		panic(err)
+	}
+	h := fnv.New64a()
+	h.Write(b)
+	rng := rand.New(rand.NewSource(int64(h.Sum64() >> 1)))
+	pre, potential, marked := d.dryTry(op)
+	if !pre {
+		return
+	}
+	choose := func(from []string, n int) []string {
+		idx := rng.Perm(len(from))
+		out := []string{}
+		for i := 0; i < n && i < len(idx); i++ {
+			out = append(out, from[idx[i]])
+		}
+		return out
+	}
+	variants := 0
+	switch {
+	case len(marked) >= 2:
+		variants = 2
+	case len(marked) == 1:
+		variants = 1
+	case rng.Float64() < 0.3:
+		variants = 1
+	}
+	for v := 0; v < variants; v++ {
+		n := 1
+		if rng.Float64() < 0.4 {
+			n = 2
+		}
+		var keys []string
+		if len(marked) > 0 {
+			keys = choose(marked, n)
+			if rng.Float64() < 0.25 {
+				others := []string{}
+				for _, k := range potential {
+					if sort.SearchStrings(marked, k) == len(marked) || marked[sort.SearchStrings(marked, k)] != k {
+						others = append(others, k)
+					}
+				}
+				if len(others) > 0 {
+					keys = append(keys[:len(keys)-1], choose(others, 1)...)
+					if n == 1 {
+						keys = append(keys, choose(marked, 1)...)
+					}
+				}
+			}
+		} else if len(potential) > 0 && rng.Float64() < 0.8 {
+			keys = choose(potential, n)
+		} else {
+			all := []string{}
+			for _, e := range arr(d.spec["allocs"]) {
+				all = append(all, jsonStr(e.(map[string]interface{})["key"]))
+			}
+			keys = choose(all, n)
+		}
+		if len(keys) == 0 {
+			continue
+		}
+		late := jm{}
+		for k, x := range op {
+			late[k] = x
+		}
+		late["lateRelease"] = keys
+		d.apply(late)
+	}
+}
+
 func runPreempt(c *Ctx) {
 	d := &preemptDrv{c: c}
 	if replayFile != "" {
-		inputs := []string{"op", "queues", "nodes", "allocs", "ask", "steps", "freq", "delay", "checked", "plugin", "nodesTried", "node", "q", "max", "wait"}
+		inputs := []string{"op", "queues", "nodes", "allocs", "ask", "steps", "freq", "delay", "checked", "plugin", "nodesTried", "node", "q", "max", "wait", "lateRelease"}
 		for _, in := range readReplay(replayFile) {
 			op := jm{}
 			for _, k := range inputs {
@@ -955,17 +1120,21 @@ func runPreempt(c *Ctx) {
 		for j := 0; j < 2; j++ {
 			d.apply(jm{"op": "precond", "delay": []int{0, 10, 30, 60, 200}[c.pick(5)], "freq": []int{0, 15, 100}[c.pick(3)], "checked": c.chance(0.4)})
 		}
-		// queue preemption without plugin and with the mock plugin
-		d.apply(jm{"op": "try", "plugin": nil, "nodesTried": c.chance(0.5)})
+		// queue preemption without plugin and with the mock plugin; every attempt is followed by its late-release variants
+		tryOp := func(op jm) {
+			d.apply(op)
+			d.lateVariants(op)
+		}
+		tryOp(jm{"op": "try", "plugin": nil, "nodesTried": c.chance(0.5)})
 		table := jm{}
 		for _, e := range nodes {
 			id := jsonStr(e.(map[string]interface{})["id"])
 			table[id] = jm{"ok": !c.chance(0.25), "extra": []int{0, 0, 0, 1, 2}[c.pick(5)], "over": c.chance(0.03)}
 		}
-		d.apply(jm{"op": "try", "plugin": table, "nodesTried": c.chance(0.5)})
+		tryOp(jm{"op": "try", "plugin": table, "nodesTried": c.chance(0.5)})
 		// a variant that always passes the preconditions
 		if c.chance(0.6) {
-			d.apply(jm{"op": "try", "plugin": nil, "nodesTried": c.chance(0.5), "ask": jm{"other": true, "req": nil, "age": 1000, "triggered": false}})
+			tryOp(jm{"op": "try", "plugin": nil, "nodesTried": c.chance(0.5), "ask": jm{"other": true, "req": nil, "age": 1000, "triggered": false}})
 		}
 		// required node preemption on a chosen node
 		ni := c.pick(len(nodes))
